@@ -48,12 +48,19 @@ struct Route {
 pub fn run_case(ctx: &Ctx, sz: &Sizes, case: u64, proxy: &RouterProxy, global: bool) {
     let rep = &ctx.rep;
     let mut r = Rng::derive(ctx.seed, 0xc07, case);
-    let nroutes = match r.below(3) {
-        0 => r.range(1, 4),
-        _ => r.range(2, 32),
+    // "swarm" batches run very many tiny scenarios: every scenario ends with a registration that
+    // nothing follows, which is where a lost wake-up of the router thread shows
+    let small = ctx.opt_u64("small", 0) == 1;
+    let nroutes = if small {
+        r.range(1, 4)
+    } else {
+        match r.below(3) {
+            0 => r.range(1, 4),
+            _ => r.range(2, 32),
+        }
     } as usize;
-    let nreg_threads = r.range(1, 8) as usize;
-    let nprod_threads = r.range(1, 6) as usize;
+    let nreg_threads = if small { r.range(2, 4) } else { r.range(1, 8) } as usize;
+    let nprod_threads = if small { 1 } else { r.range(1, 6) as usize };
     let allow_multi = is_os() && sz.sndbuf < 100_000 && r.chance(500);
     let log: Arc<Mutex<Vec<Ev>>> = Arc::new(Mutex::new(Vec::new()));
     let mut routes: Vec<Route> = Vec::new();
@@ -61,7 +68,8 @@ pub fn run_case(ctx: &Ctx, sz: &Sizes, case: u64, proxy: &RouterProxy, global: b
         let (tx, rx) = must("channel", ipc::channel::<M>());
         // occasionally a long backlog queued before registration and a burst pending at the drop
         let deep = r.chance(120);
-        let total = if deep { r.range(60, 160) } else { r.below(51) } as u32;
+        let deep = deep && !small;
+        let total = if deep { r.range(60, 160) } else if small { r.below(4) } else { r.below(51) } as u32;
         let pre = if deep { total } else if r.chance(500) { r.below(total as u64 + 1) as u32 } else { 0 };
         let mut multi_left = 1;
         let lens: Vec<usize> = (0..total)
@@ -113,7 +121,7 @@ pub fn run_case(ctx: &Ctx, sz: &Sizes, case: u64, proxy: &RouterProxy, global: b
     let mut threads = Vec::new();
     for (ti, list) in regs.into_iter().enumerate() {
         let (log, consumers) = (log.clone(), consumers.clone());
-        let pause = r.below(400);
+        let pause = if small { 0 } else { r.below(400) };
         threads.push(std::thread::spawn(move || {
             // the proxy outlives every scenario thread (leaked or global)
             let proxy: &RouterProxy = unsafe { &*(proxy_ptr as *const RouterProxy) };
@@ -312,12 +320,16 @@ pub fn run_case(ctx: &Ctx, sz: &Sizes, case: u64, proxy: &RouterProxy, global: b
     rep.stat_max("routes_in_one_router", nroutes as i64);
     rep.stat_max("register_threads", nreg_threads as i64);
     let mut seen = BTreeSet::new();
+    let all: Vec<String> = problems.iter().map(|(k, d)| format!("{}@route{}", k, d.get("route").or(d.get("handler_route")).map(|r| r.to_string()).unwrap_or_default())).collect();
     for (k, d) in problems {
         if seen.insert(k.clone()) {
-            rep.violation(&format!("C07:{}", k), json!({"ctx": base, "problem": d}), ctx.replay(case));
+            rep.violation(&format!("C07:{}", k), json!({"ctx": base, "problem": d, "all_problems": all, "log": l.iter().take(40).map(|e| format!("{:?}", e)).collect::<Vec<_>>()}), ctx.replay(case));
         }
     }
-    if case % 7 == 0 {
+    if small {
+        rep.stat("swarm_scenarios", 1);
+    }
+    if case % 7 == 0 && !small {
         rep.sample(json!({"ctx": base, "log_head": l.iter().take(12).map(|e| format!("{:?}", e)).collect::<Vec<_>>(), "clean": seen.is_empty()}));
     }
 }
@@ -334,9 +346,15 @@ pub fn run(ctx: &Ctx) {
         if global {
             run_case(ctx, &sz, case, &ROUTER, true);
         } else {
-            // a fresh router per scenario; leaked so that C17's stop path does not interfere
-            let proxy: &'static RouterProxy = Box::leak(Box::new(RouterProxy::new()));
-            run_case(ctx, &sz, case, proxy, false);
+            if ctx.opt_u64("small", 0) == 1 {
+                // thousands of tiny scenarios: the router is dropped afterwards to free its thread
+                let proxy = RouterProxy::new();
+                run_case(ctx, &sz, case, &proxy, false);
+            } else {
+                // a fresh router per scenario; leaked so that C17's stop path does not interfere
+                let proxy: &'static RouterProxy = Box::leak(Box::new(RouterProxy::new()));
+                run_case(ctx, &sz, case, proxy, false);
+            }
         }
         if ctx.rep.nviol.load(Ordering::Relaxed) >= 3 {
             break;
